@@ -3,7 +3,7 @@
 # /verif, apply the change there, run the quick check of its property (plus properties listed in seeded/<id>/also) against
 # that copy (STATHAM_REPO) with outputs redirected (VERIF_OUT), and record which tier caught it.  /repo is never touched.
 # Result lines go to stdout and to seeded/MATRIX.tsv.
-cd /verif
+cd "$(dirname "$0")/.."; V="$(pwd)"
 ids="$@"; [ -z "$ids" ] && ids=$(ls seeded | grep -v MATRIX)
 work=$(mktemp -d /tmp/seedrun.XXXXXX)
 trap 'rm -rf "$work"' EXIT
@@ -12,7 +12,7 @@ for id in $ids; do
   also=$(cat seeded/$id/also 2>/dev/null)
   rm -rf "$work/tree" "$work/out"; mkdir -p "$work/tree" "$work/out"
   (cd /repo && git archive HEAD) | tar -x -C "$work/tree"
-  (cd "$work/tree" && patch -s -p1 < /verif/seeded/$id/patch.diff) || { echo -e "$id\tPATCH-FAIL"; continue; }
+  (cd "$work/tree" && patch -s -p1 < "$V/seeded/$id/patch.diff") || { echo -e "$id\tPATCH-FAIL"; continue; }
   for p in $prop $also; do
     out=$(STATHAM_REPO="$work/tree" VERIF_OUT="$work/out" ./check $p --tier quick 2>&1); rc=$?
     ded=0; nat=0; bnd=0
